@@ -112,8 +112,13 @@ Shape(sh, a, b) ==
     [] sh = "iface"   -> <<TStruct(30, <<TSlice(34, <<a, TNil(36)>>), b>>, <<TRUE, FALSE>>)>>
     [] sh = "safestruct" -> <<TSafe(37, TStruct(30, <<a, b, UInt(38)>>, <<FALSE, FALSE, FALSE>>))>>
     [] sh = "safeslice"  -> <<TSafe(37, TSlice(30, <<a, b>>))>>
-Shapes  == {"top", "two", "slice", "mapval", "mapkey", "structEE", "structEu", "ptr", "deep", "iface", "safestruct", "safeslice"}
-QShapes == {"top", "two", "slice", "mapval", "structEu", "deep", "safestruct"}
+    \* a struct type registered as safe: by value, behind a pointer, inside a slice
+    [] sh = "regstruct"  -> <<TRegStruct(30, <<a, b>>)>>
+    [] sh = "ptrreg"     -> <<TPtrTo(33, TRegStruct(30, <<a, b>>))>>
+    [] sh = "inreg"      -> <<TSlice(34, <<TRegStruct(30, <<a, b>>), UInt(38)>>)>>
+Shapes  == {"top", "two", "slice", "mapval", "mapkey", "structEE", "structEu", "ptr", "deep", "iface", "safestruct", "safeslice",
+            "regstruct", "ptrreg", "inreg"}
+QShapes == {"top", "two", "slice", "mapval", "structEu", "deep", "safestruct", "ptrreg"}
 
 F6v == <<37, 54, 118>>   Fm6v == <<37, 45, 54, 118>>   F06d == <<37, 48, 54, 100>>  Fx2 == <<37, 120>>
 Around(f) == <<A, 32>> \o f \o <<32, A>>
@@ -152,6 +157,10 @@ ClassyX(i) == {SVObj(i), SVStr(i), RegObj(i), SMObj(i), SafeStr(i), TRStr(i, <<A
                TObj(i, {"FM"}, <<>>, <<SDiscover, SPrint(<<SafeStr(i + 1), UStr(i + 3)>>)>>, <<>>, <<>>),               \* F3
                TObj(i, {"FM"}, <<>>, <<SDiscover, SPrintf(<<A>> \o Fd \o Fs, <<UInt(i + 1), SafeStr(i + 3)>>)>>, <<>>, <<>>), \* F3
                TObj(i, {"ER", "SV"}, <<>>, <<>>, P(i), <<>>),
+               \* a Formatter that discovers the SafePrinter and prints operands written in the ambient mode
+               \* (numbers with the space between them, nil, punctuation, a redactable)
+               TObj(i, {"FM"}, <<>>, <<SDiscover, SPrint(<<UInt(i + 1), UInt(i + 2), TNil(i + 3), TSlice(i + 4, <<UInt(i + 5)>>), TRStr(i + 6, <<A>> \o StartM \o <<A>> \o EndM)>>)>>, <<>>, <<>>),
+               TObj(i, {"FM"}, <<>>, <<SDiscover, SPrintf(<<A>> \o Fv \o <<A>> \o Fd, <<UStr(i + 1), UInt(i + 2)>>)>>, <<>>, <<>>),
                \* redactables whose content is opaque (secret under Unsafe): in typed and untyped containers
                TSlice(i, <<TRStr(i + 1, P(i + 1) \o StartM \o P(i + 2) \o EndM), UInt(i + 3)>>),
                TTSlice(i, <<TRStr(i + 1, P(i + 1) \o StartM \o P(i + 2) \o EndM), TRStr(i + 3, P(i + 3))>>),
@@ -196,7 +205,10 @@ BytePos(p, q) == {
   \* text after a redactable operand: literal, a declared-safe string, a sibling field under Safe()
   <<Fv \o q \o Fs, <<TRStr(1, StartM \o <<A>> \o EndM), TSafe(3, TStr(2, p))>>>>, <<q \o Fv \o p, <<TRBytes(1, <<A>> \o StartM \o <<A>> \o EndM)>>>>,
   <<FplusV \o q, <<TSafe(4, TStruct(3, <<TRStr(1, StartM \o <<A>> \o EndM), TStr(2, p)>>, <<FALSE, FALSE>>))>>>>,
-  <<Fv \o q, <<TSlice(3, <<TRStr(1, <<A>>), TSafe(4, TStr(2, p))>>)>>>>, <<Fv \o Fv, <<TStr(2, p), TRStr(1, StartM \o <<A>> \o EndM \o <<NL>>)>>>>
+  <<Fv \o q, <<TSlice(3, <<TRStr(1, <<A>>), TSafe(4, TStr(2, p))>>)>>>>,
+  \* a redactable that ends in a truncated sequence as the last thing printed; a literal ending in a rune whose last byte is BA
+  <<p \o Fv, <<TRStr(1, StartM \o <<A>> \o EndM \o <<A, 226>>)>>>>, <<Fv \o Fv, <<TStr(1, p), TRBytes(2, <<A, 226, 128>>)>>>>,
+  <<q \o <<194, 186>> \o Fv, <<TStr(1, p)>>>>, <<<<226, 130, 186>> \o Fv \o RuneErrorBytes \o Fv, <<TStr(1, p), TStr(2, q)>>>>, <<Fv \o Fv, <<TStr(2, p), TRStr(1, StartM \o <<A>> \o EndM \o <<NL>>)>>>>
 }
 \* longer payloads that force the escaper to rewrite AND end in a truncated marker
 SpicyPay == {<<NL, 226, 128>>, StartM \o <<226, 128>>, <<A, NL, 226>>, EndM \o <<226>>}
@@ -233,7 +245,7 @@ FwIdx1 == <<37, 91, 49, 93, 119>>   FwIdx2 == <<37, 91, 50, 93, 119>>   F5w == <
 FplusW == <<37, 43, 119>>           FsharpW == <<37, 35, 119>>          Fcolon == <<58>>
 FstarW == <<37, 42, 119>>   FpstarW == <<37, 46, 42, 119>>
 ErrDirs  == {Fw, Fv, Fd, FwIdx1, FwIdx2, F5w, FplusW, FsharpW, FstarW, FpstarW}
-ErrDirs2 == {Fw, Fv, FwIdx1, F5w, FstarW}
+ErrDirs2 == {Fw, Fv, Fd, FwIdx1, F5w, FstarW}
 ErrFormats == ErrDirs \cup {x \o Fcolon \o y : x \in ErrDirs, y \in ErrDirs}
               \cup {x \o Fcolon \o y \o Fcolon \o z : x \in {Fw, Fv}, y \in {Fw, Fv}, z \in {Fw, Fv}}
 QErrFormats == ErrDirs2 \cup {x \o Fcolon \o y : x \in ErrDirs2, y \in ErrDirs2} \cup {Fw \o Fw \o Fw, FsharpW, FplusW}
@@ -249,8 +261,9 @@ ErrOperand(kind, i) ==
     [] kind = "str"    -> UStr(i)
     [] kind = "st"     -> StObj(i)
     [] kind = "erpan"  -> TObj(i, {"ER"}, <<>>, <<>>, <<>>, <<TStr(i + 1, P(i + 1))>>)
-ErrKinds  == {"er", "erfm", "ersf", "safe", "unsafe", "ernil", "nil", "int", "str", "st", "erpan"}
-QErrKinds == {"er", "erfm", "safe", "unsafe", "nil", "int", "str", "st"}
+    [] kind = "struct" -> TStruct(i, <<UInt(i + 1), UStr(i + 2)>>, <<FALSE, TRUE>>)
+ErrKinds  == {"er", "erfm", "ersf", "safe", "unsafe", "ernil", "nil", "int", "str", "st", "erpan", "struct"}
+QErrKinds == {"er", "erfm", "safe", "unsafe", "nil", "int", "str", "st", "struct"}
 ErrRoots == LET ks == IF Slice = "errorf" THEN ErrKinds ELSE QErrKinds IN
             {<<>>} \cup {<<ErrOperand(k1, 10)>> : k1 \in ks} \cup {<<ErrOperand(k1, 10), ErrOperand(k2, 20)>> : k1 \in ks, k2 \in ks}
 \* (objects are named ints in the harness: '*' would read their handle as a width; kept out of star formats)
